@@ -113,12 +113,66 @@ def jobDQ (j : Json) : Except String Json := do
     | t => throw s!"bad queue op {t}"
   return Json.mkObj [("outs", Json.arr outs), ("final", Json.arr (qs.map dumpQueue))]
 
+def decSimModel (j : Json) : Except String (SimModel α) := do
+  let props ← (← getArr j "props").toList.mapM (decProp (α := α))
+  let rules ← ((getArr j "rules").toOption.getD #[]).toList.mapM (decRule (α := α))
+  let delays ← ((getArr j "delays").toOption.getD #[]).toList.mapM (decDelay (α := α))
+  return { nSpecies := ← getNatField j "nSpecies", props, U := ← decIntCols j "U", D := ← decIntCols j "D",
+           rules, delays, safe := getBoolD j "safe" false, dt := ← getNum j "dt", t0 := ← getNum j "t0",
+           twoPi := ← getNum j "twoPi" }
+
+def encEvent : Event α → Json
+  | .fire k t d q => Json.arr #[Json.str "fire", Json.num (JsonNumber.fromNat k), Codec.enc t, Codec.enc d, Json.bool q]
+  | .deliver t a => Json.arr #[Json.str "deliver", Codec.enc t, encList a]
+  | .tick t => Json.arr #[Json.str "tick", Codec.enc t]
+  | .rules t b => Json.arr #[Json.str "rules", Codec.enc t, Json.bool b]
+  | .wait u => Json.arr #[Json.str "wait", Codec.enc u]
+  | .choose u => Json.arr #[Json.str "choose", Codec.enc u]
+
+/-- run one of the four simulators from an explicit description of the interface. -/
+def jobSim (j : Json) : Except String Json := do
+  let m ← decSimModel (α := α) j
+  let kind ← getStrField j "kind"
+  let x0 ← getNumList (α := α) j "x0"
+  let p0 ← getNumList (α := α) j "p"
+  let times ← getNumList (α := α) j "times"
+  let fuel := (getNatField j "fuel").toOption.getD 2000000
+  let g0 ← Uniform.init (α := α) j
+  let vol0 : α := (getNum (α := α) j "vol0").toOption.getD 1
+  let qlen := (getNatField j "qlen").toOption.getD times.length
+  let qdt : α := (getNum (α := α) j "qdt").toOption.getD m.dt
+  let q0 := (DQ.setup m.props.length qlen qdt).setCurrentTime m.t0
+  let vm : VolModel α ← match j.getObjVal? "volmodel" with
+    | .ok v => decVolModel v
+    | .error _ => pure .const
+  let gen := Uniform.gen (α := α)
+  let s0 := initState m x0 p0 g0 vol0 q0
+  let iter ← match kind with
+    | "ssa" => pure (ssaIter gen m times)
+    | "delay" => pure (delayIter gen m times)
+    | "volume" => pure (volumeIter gen m vm times)
+    | "delayvolume" => pure (delayVolumeIter gen m vm times)
+    | k => throw s!"bad simulator kind {k}"
+  match runLoop iter times.length fuel s0 with
+  | none => return Json.mkObj [("status", Json.str "out-of-fuel")]
+  | some s =>
+    let log := if getBoolD j "wantLog" false then Json.arr (s.log.reverse.map encEvent).toArray else Json.null
+    return Json.mkObj [
+      ("status", Json.str (if s.bad then "bad" else "ok")),
+      ("rows", Json.arr (s.rows.map encList).toArray),
+      ("volume", encList s.volTrace),
+      ("divided", Json.bool s.divided),
+      ("final", encList s.x), ("params", encList s.p),
+      ("queue", dumpQueue s.q),
+      ("log", log)]
+
 def dispatch (op : String) (j : Json) : Except String Json :=
   match op with
   | "prop" => jobProp (α := α) j
   | "term" => jobTerm (α := α) j
   | "network" => jobNetwork (α := α) j
   | "dq" => jobDQ (α := α) j
+  | "sim" => jobSim (α := α) j
   | _ => throw s!"unknown op {op}"
 end
 
